@@ -88,6 +88,7 @@ class Run:
         self.mirror = []         # (object, put clock units, delayed)
         self.log = []            # executed actions with observations: dicts
         self.skipped = 0
+        self.lagged = False
         self._patch_queue()
         self.g.start()
         self.g.read()            # initial directory-scan noise
@@ -249,6 +250,18 @@ class Run:
         self.g.tick(d)
         self.log.append({"a": "tick", "d": d})
 
+    def hold_dispatcher(self):
+        """From now on the handler blocks: the dispatcher falls behind the emitter, events pile up in the observer's queue
+        (model comparison of the per-step events is off for such a run; the oracles see the events once released)."""
+        import threading
+        self.g.hold_dispatch = threading.Event()
+        self.lagged = True
+
+    def release_dispatcher(self):
+        evs = self.g.release_dispatch()
+        self.log.append({"a": "emit", "events": [canon_event(e) for e in evs], "objs": evs, "late": True})
+        return evs
+
     def drain(self, max_rounds=200):
         for _ in range(max_rounds):
             progressed = False
@@ -276,11 +289,18 @@ class Run:
                 self.tick(st[1])
             elif st[0] == "drain":
                 self.drain()
+            elif st[0] == "hold":
+                self.hold_dispatcher()
+            elif st[0] == "release":
+                self.drain()
+                self.release_dispatcher()
         return self
 
     def close(self):
         from watchdog.utils import delayed_queue
         try:
+            if self.g.hold_dispatch is not None:
+                self.g.release_dispatch()
             ok = self.g.stop()
         finally:
             delayed_queue.DelayedQueue.put, delayed_queue.DelayedQueue.remove = self._saved
